@@ -4,7 +4,6 @@ diagonal left by `diagonalize_in_place` has its zeros at the end; hence the dete
 of the input matrix are the partial products of the chain the model outputs.
 -/
 import DSymVerif.Proofs.InvariantsDet
-import DSymVerif.Proofs.InvariantsSmall
 import DSymVerif.Proofs.InvariantsTail
 
 namespace DSymVerif.Inv
@@ -171,7 +170,7 @@ theorem zpat_getD {f g : List ℤ} (h : zpat f = zpat g) (i : ℕ) :
 
 /-- what the model does after `diagonalize_in_place`, in terms of determinantal divisors -/
 theorem dk_of_model (mat D : Mat) (r n : ℕ) (hR : Rect mat r n) (hr : 0 < r)
-    (hS : SmallRun (List.range (min r n)) mat) (h : diagonalize mat = some D) :
+    (h : diagonalize mat = some D) :
     (chainPass (min r n) (diagonal D (min r n))).length = min r n ∧
     (∀ x ∈ chainPass (min r n) (diagonal D (min r n)), 0 ≤ x) ∧
     (∀ i j, i ≤ j → (chainPass (min r n) (diagonal D (min r n))).getD i 0 ∣
@@ -179,11 +178,11 @@ theorem dk_of_model (mat D : Mat) (r n : ℕ) (hR : Rect mat r n) (hr : 0 < r)
     ∀ k, k ≤ min r n → dk (toMatrix mat r n) k =
       (∏ i ∈ Finset.range k, (chainPass (min r n) (diagonal D (min r n))).getD i 0).natAbs := by
   obtain ⟨hdiag, hU⟩ := diagonalize_diagonal' mat D r n
-    (fun M => UEquiv (toMatrix mat r n) (toMatrix M r n)) (closed_uequiv r n _) hR hr hS
+    (fun M => UEquiv (toMatrix mat r n) (toMatrix M r n)) (closed_uequiv r n _) hR hr
     (UEquiv.refl _) h
   obtain ⟨D', hD', hRD⟩ := diagonalize_some mat r n hR hr
   rw [h] at hD'; injection hD' with hD'; subst hD'
-  have htail := diagonalize_tail mat D r n hR hr hS h
+  have htail := diagonalize_tail mat D r n hR hr h
   have hnn := diagonalize_diag_nonneg mat D r n hR hr h
   have hlen0 := diagonal_length D (min r n)
   have hlen : (chainPass (min r n) (diagonal D (min r n))).length = min r n := by
